@@ -45,9 +45,9 @@ CLAIMS = {
   note="Trusted: cbmc's __builtin_popcountll for hwloc_weight_long."),
  "C16": dict(
   category="proof", design_ref="DESIGN.md section 3 (C16)",
-  technique=TECH + "DFCC frame contract on hwloc_topology_diff_apply (rejection prefix)",
-  text="ONE CLAUSE ONLY: hwloc_topology_diff_apply with unknown flag bits returns -1/EINVAL, and on an adopted topology -1/EPERM, assigning nothing but errno and without applying any diff entry (hwloc_apply_diff_one is proved unreachable on these paths). Build/apply/reverse inversion, the -N return value with rollback, and XML export/load of diffs are not decided.",
-  note="none beyond cbmc/DFCC."),
+  technique=TECH + "DFCC contracts on hwloc_topology_diff_apply: frame contract for the rejection prefix; per-entry application replaced by a logging contract for the -N / roll-back clause",
+  text="TWO CLAUSES ONLY. (1) Proved: unknown apply flags give -1/EINVAL and an adopted topology -1/EPERM, assigning nothing but errno and without applying any entry. (2) BOUNDED stand-in (lists of 0..3 entries, loops unwound): with hwloc_apply_diff_one replaced by a logging contract in which any call may be the failing one, hwloc_topology_diff_apply returns 0 after applying every entry once, in order, with the caller's flags; if entry N fails it returns -N with EINVAL after re-applying entries 1..N-1 with APPLY_REVERSE toggled and touches nothing after N. What applying one entry does to an object, build/apply/reverse inversion (so that the roll-back really restores the topology) and XML export/load of diffs are not decided.",
+  note="Trusted: the logging contract of hwloc_apply_diff_one is an assumption about that callee (it is not enforced against its body)."),
  "C14": dict(
   category="proof", design_ref="DESIGN.md section 3 (C14)",
   technique=TECH + "loop-free full-domain harnesses for the best-of update steps; bounded harnesses (explicit small states, loops unwound) for get_best_target / get_best_initiator / register",
